@@ -2553,7 +2553,7 @@ func (p *Parser) lookaheadSubQuery() bool {
 		return false
 	}
 
-	// ((...(SELECT ...)...) UNION indicates subquery.
+	// ((...(SELECT ...)...) UNION (or ORDER BY, LIMIT, a pipe operator) indicates subquery.
 	for p.Token.Kind != token.TokenEOF {
 		if p.Token.Kind == "(" {
 			nest++
@@ -2572,7 +2572,7 @@ func (p *Parser) lookaheadSubQuery() bool {
 	}
 	p.nextToken()
 	switch p.Token.Kind {
-	case "UNION", "INTERSECT", "EXCEPT", "ORDER", "LIMIT":
+	case "UNION", "INTERSECT", "EXCEPT", "ORDER", "LIMIT", "|>":
 		return true
 	}
 	return false
